@@ -214,7 +214,7 @@ impl Property for P {
     }
     fn rule(&self) -> String {
         "Generated: sessions over 4 KEMs x any KDF/AEAD in {Auth, AuthPsk} (identity impostors) and {Psk, AuthPsk} (PSK possession) with impostor kinds: a different key pair; public half only (OpModeS::Auth((skI, pkS)), a real call since the API takes the pair unchecked); sender in the non-authenticated sibling mode; psk differing in one bit / in length / entirely, same psk_id; forged transcripts computed by the reference model from public values and an ephemeral key only (identity DH term omitted / Ndh zero bytes / omitted together with pkS in kem_context / DH(skE, pkS) / the ephemeral DH repeated) against a receiver expecting the honest pkS, each of the 14 small-order X25519 encodings, or (NIST) its own public key. \
-         Swept: 4 KEMs x applicable modes x 6 impostor kinds; 5 forged-term kinds x expected keys x {Auth, AuthPsk} x 4 KEMs x {sealing, export-only}. \
+         Swept: 4 KEMs x applicable modes x 6 impostor kinds; 5 forged-term kinds x expected keys x {Auth, AuthPsk} x 4 KEMs x {sealing, export-only}; every PSK length 1..=1200 (every 7th up to 2100) with the impostor's PSK differing in its last bit / one byte shorter / one byte longer. A third of the generated PSK impostors use a 301..=2100-byte PSK with the difference at its end. \
          Oracle: positive control (honest sender accepted, exports equal); for the impostor the receiver opens none of 3 ciphertexts and all 3 exports differ (or a setup fails). \
          Non-trivial: the public-half-only impostor, one-bit PSK differences and forged transcripts."
             .into()
@@ -232,8 +232,17 @@ impl Property for P {
             1 => Just(Impostor::PskOther),
             3 => (0u8..5, prop_oneof![2 => Just(0u8), 3 => 1u8..=14]).prop_map(|(term, expect)| Impostor::Forged { term, expect }),
         ];
-        (gen::session_any(), gen::ikm(), kind, any::<bool>())
-            .prop_map(|(mut sess, ikm_i, kind, both)| {
+        (gen::session_any(), gen::ikm(), kind, any::<bool>(), any::<u16>())
+            .prop_map(|(mut sess, ikm_i, mut kind, both, long)| {
+                // a long PSK (301..=2100 bytes) whose impostor copy differs only at its very end: a key
+                // schedule that silently looks at a prefix of the PSK accepts it
+                if matches!(kind, Impostor::PskBit(_) | Impostor::PskLength(_)) && long % 3 == 0 {
+                    let l = 301 + (long as usize * 1800 >> 16);
+                    sess.psk = Bytes(gen::fill(l, 5, long as u64));
+                    if let Impostor::PskBit(k) = kind {
+                        kind = Impostor::PskBit(65535 - (k % 8));
+                    }
+                }
                 sess.mode = match kind {
                     Impostor::OtherPair | Impostor::PublicHalfOnly | Impostor::Unauthenticated | Impostor::Forged { .. } => {
                         if both {
@@ -289,7 +298,24 @@ impl Property for P {
                 }
             }
         }
-        vec![("kem_x_mode_x_impostor_cells".into(), cells), ("forged_transcripts_x_expected_sender_key".into(), forged)]
+        // every PSK length 1..=1200 (then every 7th up to 2100): the impostor's PSK differs in its last
+        // bit, lacks the last byte, or has one more byte
+        let mut psklen = Vec::new();
+        for l in (1..=1200usize).chain((1201..=2100).step_by(7)) {
+            let s = Suite { kem: KemId::X25519, kdf: KdfId::ALL[l % 3], aead: if l % 5 == 0 { AeadId::Export } else { AeadId::ChaCha } };
+            let mut sess = gen::cell_session(s, if l % 2 == 0 { 1 } else { 3 }, 81);
+            sess.psk = Bytes(gen::fill(l, 5, 810 + l as u64));
+            let kind = match l % 3 {
+                0 => Impostor::PskLength(true),
+                1 if l > 1 => Impostor::PskLength(false),
+                _ => Impostor::PskBit(65535),
+            };
+            psklen.push(Case { sess: sess.clone(), ikm_i: Bytes(gen::fill(32, 5, 88)), kind });
+            if l % 3 != 2 {
+                psklen.push(Case { sess, ikm_i: Bytes(gen::fill(32, 5, 88)), kind: Impostor::PskBit(65535) });
+            }
+        }
+        vec![("kem_x_mode_x_impostor_cells".into(), cells), ("forged_transcripts_x_expected_sender_key".into(), forged), ("every_psk_length_with_a_difference_at_the_end".into(), psklen)]
     }
     fn check(&self, case: &Case, obs: &mut Obs) -> Verdict {
         check(case, obs)
